@@ -159,6 +159,10 @@ type Driver struct {
 	// NextMethod, when set, is the method of the next request only (default GET).
 	NextMethod string
 	hookPaths  []string
+	fb         http.Handler
+	// Swapped counts the requests answered through a fallback installed later with the breaker's
+	// public Fallback method (SwapFallback).
+	Swapped int
 }
 
 type Flight struct {
@@ -205,6 +209,7 @@ func New(t Fataler, expr string, f, r, p time.Duration, phase time.Duration) *Dr
 		}
 		w.WriteHeader(http.StatusServiceUnavailable)
 	})
+	d.fb = fb
 	var onTripped, onStandby cbreaker.SideEffect = d.OnTripped, d.OnStandby
 	if UseWebhooks && !BlockEffects {
 		addr, err := hookServer()
@@ -336,6 +341,18 @@ func (d *Driver) Start(headers ...string) (passed bool) {
 func (d *Driver) Rewrap() {
 	d.CB.Wrap(d.Gate)
 	d.logf("Wrap(same handler)")
+}
+
+// SwapFallback installs another fallback handler (same answer) through the breaker's public
+// Fallback method, between requests: from now on it is this one that answers refused requests,
+// and nothing about the breaker's state may change.
+func (d *Driver) SwapFallback() {
+	inner := d.fb
+	d.CB.Fallback(http.HandlerFunc(func(w http.ResponseWriter, req *http.Request) {
+		d.Swapped++
+		inner.ServeHTTP(w, req)
+	}))
+	d.logf("Fallback(another handler)")
 }
 
 // Finish completes in-flight request i with the given status.
